@@ -48,11 +48,13 @@ type Obs struct {
 var obsNames = []string{"m.String", "m.WriteTo", "f.LLString", "b.LLString", "inst.LLString", "v.Type", "v.Ident", "v.String",
 	"inst.Operands", "term.Succs", "g.LLString", "term.LLString", "term.Operands", "f.Type+Ident", "param.String", "operands.Ident+String+Type", "g.Type+Ident+String"}
 
-func (o Obs) String() string { return fmt.Sprintf("%s(%d,%d,%d)", obsNames[o.K%len(obsNames)], o.A, o.B, o.C) }
+func (o Obs) String() string {
+	return fmt.Sprintf("%s(%d,%d,%d)", obsNames[o.K%len(obsNames)], o.A, o.B, o.C)
+}
 
 type genParams struct {
-	Steps    int
-	Metadata bool // allow metadata definitions and attachments
+	Steps     int
+	Metadata  bool // allow metadata definitions and attachments
 	BlockAddr bool // allow blockaddress constants of blocks in global initialisers
 }
 
